@@ -13,6 +13,13 @@
  *     (-1 = unbounded);  S: replay exactly this schedule (digits = thread ids) and print the event trace;
  *     V <choices>: replay it twice, demand identical event traces, print only the history line.
  * stdout: PROG/H/END records (see emit_results).   exit 3 = harness error (divergent replay, impossible state).
+ *
+ * A fault (SIGSEGV/SIGBUS/SIGILL/SIGFPE) or a hang (3 s of CPU time without a scheduling decision) while CODE UNDER TEST
+ * is running (a body, a helper, an access stub, or the runtime reading the operand an instrumented instruction is about
+ * to access) is a verdict about that code: the history of the schedule is "CRASH-<what>", exploration of the program
+ * stops there (as for a livelock), the results are printed followed by "CRASHED <id>" and the process exits with
+ * status 4 because its memory can no longer be trusted; the caller runs the remaining programs in a new process.
+ * A fault anywhere else kills the process by the signal (= harness error).
  */
 #define _GNU_SOURCE
 #include <stdint.h>
@@ -20,6 +27,9 @@
 #include <stdlib.h>
 #include <string.h>
 #include <time.h>
+#include <signal.h>
+#include <unistd.h>
+#include <sys/time.h>
 
 #define MAXT 3
 #define MAXOPS 3
@@ -85,6 +95,10 @@ static unsigned long long n_decisions, n_runs;
 
 static long long deadline;            /* CLOCK_MONOTONIC nanoseconds; 0 = none (no floating point: -mgeneral-regs-only) */
 static long long now(void) { struct timespec ts; clock_gettime(CLOCK_MONOTONIC, &ts); return ts.tv_sec * 1000000000LL + ts.tv_nsec; }
+
+/* 0 while code under test runs on a virtual thread, 1 while the runtime itself runs */
+static volatile int in_runtime = 1;
+static volatile int peeking;          /* the runtime reads the operand of the instruction about to execute */
 
 static void die(const char *msg) {
   printf("HARNESS-ERROR %s prog=%s depth=%d\n", msg, prog.id, depth);
@@ -182,7 +196,12 @@ static void thread_exit(void) {
 
 static uint64_t peek(uint64_t addr, int size) {
   uint64_t v = 0;
-  if (size == 1 || size == 2 || size == 4 || size == 8) memcpy(&v, (void *)addr, size);
+  peeking = 1;
+  if (size == 1) v = *(volatile uint8_t *)addr;
+  else if (size == 2) v = *(volatile uint16_t *)addr;
+  else if (size == 4) v = *(volatile uint32_t *)addr;
+  else if (size == 8) v = *(volatile uint64_t *)addr;
+  peeking = 0;
   return v;
 }
 
@@ -196,10 +215,12 @@ void vp_access(uint64_t addr, unsigned ks, uint64_t pc) {
     uint64_t lo = (uint64_t)stacks[cur], hi = lo + STACKSZ;
     if (addr >= lo && addr < hi) return;                 /* private */
   }
+  in_runtime = 1;
   if (on_object && size && !unlocked_flag[0] && (kind == K_UNLOCKED || kind == K_CMPX_R))
     snprintf(unlocked_flag, sizeof unlocked_flag, "%s%d", kind == K_UNLOCKED ? "rmw" : "cmpxchg", size);
   sched_point();
   push_ev(kind, cur, size, 0, pc, addr, peek(addr, size), 0);
+  in_runtime = 0;
 }
 
 /* ---- services callable from the bodies (mode 1: object in the parent's automatic storage) ---- */
@@ -207,15 +228,18 @@ static int cur_opno[MAXT];
 static int ret_done[MAXT];
 
 void vp_auto_begin(void *scalar, long size) {
+  in_runtime = 1;
   if (cur != 0 || prog.mode != 1) die("vp_auto_begin misuse");
   obj_addr = scalar; obj_size = size; agg_addr = scalar; agg_size = size; obj_base = scalar;
   memcpy(obj_addr, &prog.init, size);
   published = 1;
   sched_point();
   push_ev(K_CALL, cur, 0, cur_opno[cur], 0, 0, 0, 0);
+  in_runtime = 0;
 }
 
 void vp_auto_end(long r, long e) {
+  in_runtime = 1;
   push_ev(K_RET, cur, 0, cur_opno[cur], 0, 0, (uint64_t)r, (uint64_t)e);
   ret_done[cur] = 1;
   waiting_join[cur] = 1;
@@ -229,6 +253,7 @@ void vp_auto_end(long r, long e) {
   waiting_join[cur] = 0;
   final_val = 0;
   memcpy(&final_val, obj_addr, obj_size);
+  in_runtime = 0;
 }
 
 void vp_thread_main(void) {
@@ -242,7 +267,9 @@ void vp_thread_main(void) {
     ret_done[t] = 0;
     if (i > 0) { sched_point(); push_ev(K_YIELD, t, 0, i, 0, 0, 0, 0); }
     if (!parent) push_ev(K_CALL, t, 0, i, 0, 0, 0, 0);
+    in_runtime = 0;
     long r = vp_ops[o->opidx].fn(obj_base, o->arg, &e);
+    in_runtime = 1;
     if (cur != t) die("body returned on the wrong thread");
     if (!ret_done[t]) push_ev(K_RET, t, 0, i, 0, 0, (uint64_t)r, (uint64_t)e);
   }
@@ -351,22 +378,103 @@ static void print_trace(void) {
 
 /* ------------------------------------------------------------------ DFS */
 #define MAXPRE 64
+static unsigned long long ex_schedules, ex_by_pre[MAXPRE + 1], ex_livelocks, ex_validated, ex_dec0, ex_runs0;
+static int ex_maxdepth;
+static int mode_replay;              /* 0 exploring, 1 replay with trace (S), 2 replay twice (V) */
+static const char *replay_text;
+
+static void emit_results(void) {
+  printf("PROG %s schedules=%llu decisions=%llu runs=%llu validated=%llu maxdepth=%d livelocks=%llu histories=%d by_pre=",
+         prog.id, ex_schedules, n_decisions - ex_dec0, n_runs - ex_runs0, ex_validated, ex_maxdepth, ex_livelocks, nhist);
+  for (int i = 0; i <= MAXPRE; i++) if (ex_by_pre[i]) printf("%d:%llu,", i, ex_by_pre[i]);
+  printf("\n");
+  for (int b = 0; b < HBUCKETS; b++) {
+    for (struct hent *e = htab[b], *nx; e; e = nx) {
+      nx = e->next;
+      printf("H %llu %d %016lx %s | %s\n", e->count, e->minpre, (unsigned long)e->thash, e->sched, e->text);
+      free(e->text); free(e->sched); free(e);
+    }
+    htab[b] = 0;
+  }
+  nhist = 0;
+  printf("END %s\n", prog.id);
+}
+
+/* The code under test faulted or hangs (runs on the alternate signal stack). */
+static void body_crashed(const char *what) {
+  char text[64];
+  snprintf(text, sizeof text, "CRASH-%s", what);
+  in_runtime = 1;
+  int len = depth, npre = pre[depth];
+  if (mode_replay) {
+    printf("PROG %s replay\n", prog.id);
+    if (mode_replay == 1) print_trace();
+    printf("H 1 %d %016lx %s | %s\n", npre, (unsigned long)trace_hash(), replay_text, text);
+    printf("END %s\n", prog.id);
+  } else {
+    ex_schedules++;
+    ex_by_pre[npre > MAXPRE ? MAXPRE : npre]++;
+    if (len > ex_maxdepth) ex_maxdepth = len;
+    record_history(text, npre, len);
+    emit_results();
+  }
+  printf("CRASHED %s\n", prog.id);
+  fflush(stdout);
+  _exit(4);
+}
+
+static void on_fault(int sig, siginfo_t *si, void *uc) {
+  (void)si; (void)uc;
+  if (cur >= 0 && (!in_runtime || peeking))
+    body_crashed(sig == SIGSEGV ? "SEGV" : sig == SIGBUS ? "BUS" : sig == SIGILL ? "ILL" : "FPE");
+  signal(sig, SIG_DFL);                /* a fault of the harness itself: die by the signal */
+}
+
+static void on_tick(int sig, siginfo_t *si, void *uc) {
+  static unsigned long long last_dec, last_runs;
+  static int ticks;
+  (void)sig; (void)si; (void)uc;
+  if (n_decisions != last_dec || n_runs != last_runs || in_runtime || cur < 0) {
+    last_dec = n_decisions; last_runs = n_runs; ticks = 0;
+    return;
+  }
+  if (++ticks >= 3) body_crashed("HANG");
+}
+
+static void install_handlers(void) {
+  static unsigned char altstack[1 << 16] __attribute__((aligned(64)));
+  stack_t ss = { .ss_sp = altstack, .ss_size = sizeof altstack, .ss_flags = 0 };
+  if (sigaltstack(&ss, 0)) die("sigaltstack");
+  struct sigaction sa;
+  memset(&sa, 0, sizeof sa);
+  sa.sa_sigaction = on_fault;
+  sa.sa_flags = SA_SIGINFO | SA_ONSTACK;      /* a fault inside the handler kills the process */
+  sigemptyset(&sa.sa_mask);
+  sigaction(SIGSEGV, &sa, 0); sigaction(SIGBUS, &sa, 0); sigaction(SIGILL, &sa, 0); sigaction(SIGFPE, &sa, 0);
+  sa.sa_sigaction = on_tick;
+  sa.sa_flags = SA_SIGINFO | SA_ONSTACK | SA_RESTART;
+  sigaction(SIGVTALRM, &sa, 0);
+  struct itimerval it = { { 1, 0 }, { 1, 0 } };        /* process CPU time, not wall time: robust on a loaded machine */
+  setitimer(ITIMER_VIRTUAL, &it, 0);
+}
+
 static void explore(void) {
-  unsigned long long schedules = 0, by_pre[MAXPRE + 1] = {0}, livelocks = 0, validated = 0, dec0 = n_decisions, runs0 = n_runs;
-  int maxdepth = 0;
   long bound = prog.bound < 0 ? (1L << 30) : prog.bound;
   char text[4096];
+  ex_schedules = ex_livelocks = ex_validated = 0; ex_dec0 = n_decisions; ex_runs0 = n_runs; ex_maxdepth = 0;
+  memset(ex_by_pre, 0, sizeof ex_by_pre);
+  mode_replay = 0;
   replay_len = 0; strict_replay = 0;
   for (;;) {
     run_once();
     int len = depth, npre = pre[depth];
-    if (len > maxdepth) maxdepth = len;
-    schedules++;
-    by_pre[npre > MAXPRE ? MAXPRE : npre]++;
+    if (len > ex_maxdepth) ex_maxdepth = len;
+    ex_schedules++;
+    ex_by_pre[npre > MAXPRE ? MAXPRE : npre]++;
     if (aborted) {
       /* a run of HORIZON scheduling points: some retry loop never terminates.  That is a verdict for the whole
          program; exploring the (astronomically many) other infinite schedules adds nothing. */
-      livelocks++;
+      ex_livelocks++;
       record_history("LIVELOCK", npre, len);
       break;
     } else {
@@ -374,7 +482,7 @@ static void explore(void) {
       record_history(text, npre, len);
     }
     /* determinism proof: re-execute every 1000th schedule (and the first one) and demand the identical event trace */
-    if (schedules % 1000 == 1) {
+    if (ex_schedules % 1000 == 1) {
       int n1 = ntrace, ab = aborted;
       memcpy(trace2, trace, n1 * sizeof(struct ev));
       replay_len = len; strict_replay = 1;
@@ -382,10 +490,10 @@ static void explore(void) {
       strict_replay = 0;
       if (depth != len || aborted != ab || ntrace != n1 || memcmp(trace, trace2, n1 * sizeof(struct ev)))
         die("nondeterminism: replaying a schedule produced a different event trace");
-      validated++;
+      ex_validated++;
     }
-    if (deadline && (schedules & 1023) == 0 && now() > deadline) {
-      printf("TIMEOUT %s after %llu schedules\n", prog.id, schedules);
+    if (deadline && (ex_schedules & 1023) == 0 && now() > deadline) {
+      printf("TIMEOUT %s after %llu schedules\n", prog.id, ex_schedules);
       fflush(stdout);
       exit(0);
     }
@@ -403,20 +511,7 @@ static void explore(void) {
     if (d < 0) break;
     replay_len = d + 1;
   }
-  printf("PROG %s schedules=%llu decisions=%llu runs=%llu validated=%llu maxdepth=%d livelocks=%llu histories=%d by_pre=",
-         prog.id, schedules, n_decisions - dec0, n_runs - runs0, validated, maxdepth, livelocks, nhist);
-  for (int i = 0; i <= MAXPRE; i++) if (by_pre[i]) printf("%d:%llu,", i, by_pre[i]);
-  printf("\n");
-  for (int b = 0; b < HBUCKETS; b++) {
-    for (struct hent *e = htab[b], *nx; e; e = nx) {
-      nx = e->next;
-      printf("H %llu %d %016lx %s | %s\n", e->count, e->minpre, (unsigned long)e->thash, e->sched, e->text);
-      free(e->text); free(e->sched); free(e);
-    }
-    htab[b] = 0;
-  }
-  nhist = 0;
-  printf("END %s\n", prog.id);
+  emit_results();
 }
 
 static void replay_schedule(const char *s, int verify) {
@@ -425,6 +520,7 @@ static void replay_schedule(const char *s, int verify) {
   if (len > HORIZON) die("schedule too long");
   replay_len = 0; strict_replay = 0;
   follow = s; follow_len = len;
+  mode_replay = verify ? 2 : 1; replay_text = s;
   run_once();
   if (depth != len) die("divergent replay: execution ended before the schedule did");
   if (verify) {
@@ -448,6 +544,7 @@ int main(int argc, char **argv) {
   if (argc > 1 && atol(argv[1]) > 0) deadline = now() + atol(argv[1]) * 1000000000LL;
   setvbuf(stdout, 0, _IOFBF, 1 << 16);
   __asm__ volatile("fxsave64 %0" : "=m"(fx_template.fx));
+  install_handlers();
   while (fgets(line, sizeof line, stdin)) {
     char *save, *tok = strtok_r(line, " \n", &save);
     if (!tok || strcmp(tok, "P")) continue;
